@@ -342,6 +342,15 @@ def rule_b(ctx: Context, R: Reporter):
                     f"training point shifts every later mode and the largest label runs out of range",
                 witness={"iterates": unparse(it), "consumer_subscripts": n_cons}, key="rank-space-vs-label-space",
             )
+            # one mode per label, on every path: nothing skips an iteration of the producer loop before its appends
+            if True:
+                cfg = fl.cfg
+                app_nodes = {fl.node_containing(c).id for c in appends if fl.node_containing(c) is not None}
+                body_first = [t for (t, lab) in cfg.succ[nd.id] if lab and lab[0] == "iter" and lab[1] is True] or [t for (t, lab) in cfg.succ[nd.id] if t != nd.id][:1]
+                skips = any(cfg.reaches(b, nd.id, blocked=app_nodes) or b == nd.id for b in body_first if b not in app_nodes)
+                R.check("C14.b", "every label of the range gets exactly one mode (no iteration skips its appends)", not skips, m, nd.stmt,
+                        msg=f"{m.short}: an iteration of `for {unparse(nd.stmt.target)} in {unparse(it)[:40]}` can return to the loop head without appending (a `continue` / conditional "
+                            f"append): later modes shift down one position while the kernel keeps indexing with raw labels", key="producer-loop-skips")
     R.floor("C14.b", "per-mode producer loops", n_prod, 1)
     # per-cluster vectors derived from the labels must span the whole label range: bincount/unique counts have the
     # length of the largest *occurring* label + 1 (or the number of occurring labels), not the number of clusters
@@ -527,6 +536,62 @@ def rule_f(ctx: Context, R: Reporter):
     R.floor("C14.f", "factory calls with a labels argument in the clusterer's users", n, 1)
 
 
+# ------------------------------------------------------------------ C14.g
+def rule_g(ctx: Context, R: Reporter):
+    """The labels stored under `assignments` together with new unit-cube rows are
+    predict() of the shared clusterer on exactly those rows (or a constant vector
+    when clustering is off): label i then belongs to row i."""
+    cl, wiring, users = shared_clusterer(ctx)
+    n = 0
+    for (sc, attr) in users:
+        for m in sc.methods.values():
+            fl = flow_of(m.node)
+            writes = [a for a in ctx.state.in_func(m, include_nested=False) if a.mode == "write"]
+            by_call = {}
+            for a in writes:
+                by_call.setdefault(id(a.call), []).append(a)
+            for accs in by_call.values():
+                keys = {a.key: a for a in accs}
+                if "assignments" not in keys or "u" not in keys:
+                    continue
+                n += 1
+                a_as, a_u = keys["assignments"], keys["u"]
+                at = fl.node_containing(a_as.call)
+
+                def leaves(e, at0, depth=0):
+                    """Value expressions the label vector can be (through names and conditional expressions)."""
+                    if depth > 6:
+                        return [(e, at0)]
+                    if isinstance(e, ast.IfExp):
+                        return leaves(e.body, at0, depth + 1) + leaves(e.orelse, at0, depth + 1)
+                    if isinstance(e, ast.Name):
+                        out = []
+                        for d in fl.reaching(at0, e.id):
+                            if d.kind == "assign" and d.value is not None and not d.path:
+                                out += leaves(d.value, d.node, depth + 1)
+                            else:
+                                out.append((e, at0))
+                        return out
+                    return [(e, at0)]
+
+                for (v, vat) in leaves(a_as.value, at):
+                    if isinstance(v, ast.Call) and (ctx.res.external_name(m, v) or "") in ("numpy.zeros", "numpy.zeros_like", "numpy.full"):
+                        continue
+                    ok = False
+                    why = f"`{unparse(v)[:50]}`"
+                    if isinstance(v, ast.Call) and isinstance(v.func, ast.Attribute) and v.func.attr == "predict" and cl in [t for t in ctx.res.expr_types(m, v.func.value) if isinstance(t, ClassInfo)]:
+                        a0 = v.args[0] if v.args else None
+                        if isinstance(a0, ast.Name) and isinstance(a_u.value, ast.Name):
+                            ok = a0.id == a_u.value.id and {id(d) for d in fl.reaching(vat, a0.id)} == {id(d) for d in fl.reaching(at, a_u.value.id)}
+                            why = f"predict() is given `{a0.id}`, the rows stored are `{a_u.value.id}`"
+                        elif a0 is not None and norm_text(a0) == norm_text(a_u.value):
+                            ok = True
+                    R.check("C14.g", f"{m.short}: stored labels are predict() of the stored rows", ok, m, v,
+                            msg=f"{m.short}: key `assignments` receives {why} next to `u = {unparse(a_u.value)[:30]}`: unless it is predict() of exactly those rows, label i does not "
+                                f"belong to particle i (e.g. labels of the distinct resampled particles in sorted order against rows in draw order)", key=f"labels-of-stored-rows:{m.short}")
+    R.floor("C14.g", "state writes storing rows together with labels", n, 1)
+
+
 # ------------------------------------------------------------------ C14.e
 def rule_e(ctx: Context, R: Reporter):
     from ..util import conds_holding_at, is_none_test
@@ -598,6 +663,7 @@ def run(ctx: Context, R: Reporter):
     R.guard(rule_d, ctx, R)
     R.guard(rule_e, ctx, R)
     R.guard(rule_f, ctx, R)
+    R.guard(rule_g, ctx, R)
 
 
 def variants():
